@@ -42,6 +42,10 @@ MarketHook(b, w, N, Gap) ==
 
 Cycle(b, w, kind, r, N, Gap) == MarketHook(BandHook(Arrive(b, kind, r), Gap), w, N, Gap)
 
+(* governance installs a new fetch-price configuration (AddFetchPriceRecords: new window size / accepted gap): the cadence state *)
+(* restarts and every price window is dropped                                                                                   *)
+Reconfig(b) == [b EXCEPT !.flag = FALSE, !.dh = -1, !.dbool = FALSE]
+
 (* ghost window across a cycle *)
 GhostCycle(g, b, w, kind, r, N, Gap) ==
    LET b1 == BandHook(Arrive(b, kind, r), Gap) IN
